@@ -1,6 +1,8 @@
 package c11
 
 import (
+	"encoding/json"
+	"fmt"
 	"strings"
 	"testing"
 
@@ -21,8 +23,41 @@ func TestC11(t *testing.T) {
 	rec.Assume("texts of runtime error messages are never compared; a position prefix is checked only where the manual's level semantics name a Lua call site on a single source line, otherwise any/optional prefix is accepted")
 	rec.Assume("string errors crossing coroutine.wrap: the reference implementation prepends position information, the manual says 'propagates the error': any string is accepted there")
 	progcheck.ApplyKnownFindings(rec)
+	if rec.Replay != "" {
+		if rf, err := rec.LoadReplay(); err == nil {
+			var c progcheck.Case
+			if json.Unmarshal(rf.Case, &c) == nil && strings.HasPrefix(c.Note, "stability:") {
+				rec.Eval()
+				if msg := checkStability(c); msg != "" {
+					rec.Violation("stability", c, msg)
+				}
+				return
+			}
+		}
+	}
 	if progcheck.Replay(t, rec, harness.Opts{}) {
 		return
+	}
+	// repetition stability of caught errors (metamorphic, no model)
+	{
+		idx := 0
+		reps := rec.Pick(6, 1500)
+		for _, sn := range stabilitySnippets {
+			for _, inCo := range []bool{false, true} {
+				idx++
+				if !rec.Mine(idx) {
+					continue
+				}
+				c := progcheck.Case{Source: stabilityProgram(sn.body, reps, inCo), Note: fmt.Sprintf("stability:%s co=%v n=%d", sn.name, inCo, reps)}
+				rec.Eval()
+				rec.Class("stability:" + sn.name)
+				rec.NonTrivial(c.Note)
+				if msg := checkStability(c); msg != "" {
+					rec.Violation("stability", c, sn.name+": "+msg)
+					return
+				}
+			}
+		}
 	}
 	grid := luagen.ErrorGrid()
 	rec.Set("grid_size", len(grid))
